@@ -117,58 +117,74 @@ def prepare(repo, work):
     return report
 
 
-HARNESS_RX = re.compile(r'^Checking harness ([^\s.]+(?:::[^\s.]+)*)\.\.\.', re.M)
-
-
 def parse_output(text):
-    """Split Kani's regular output into per-harness results."""
+    """Per-harness results from Kani's terse output (with or without -j)."""
     res = {}
-    marks = list(HARNESS_RX.finditer(text))
-    for i, m in enumerate(marks):
-        name = m.group(1)
-        seg = text[m.end():marks[i + 1].start() if i + 1 < len(marks) else len(text)]
-        res[name] = parse_segment(seg)
+    cur_of_thread = {}
+    active = None
+    seg = {}
+    for line in text.split('\n'):
+        m = re.match(r'^(?:Thread (\d+): )?Checking harness (\S+?)\.\.\.\s*$', line)
+        if m:
+            tid = m.group(1) or '0'
+            cur_of_thread[tid] = m.group(2)
+            seg.setdefault(m.group(2), [])
+            if m.group(1) is None:
+                active = m.group(2)
+            continue
+        m = re.match(r'^Thread (\d+):\s*$', line)
+        if m:
+            active = cur_of_thread.get(m.group(1))
+            continue
+        if line.startswith('Manual Harness Summary') or line.startswith('Complete - '):
+            active = None
+        if active is not None:
+            seg[active].append(line)
+    for name, lines in seg.items():
+        res[name] = parse_segment('\n'.join(lines))
+    # harnesses named in the final summary as failed but without a segment verdict
+    for m in re.finditer(r'^Verification failed for - (\S+)', text, re.M):
+        res.setdefault(m.group(1), parse_segment(''))
+        if res[m.group(1)]['status'] == 'unknown':
+            res[m.group(1)]['status'] = 'FAILED'
     return res
 
 
-CHECK_RX = re.compile(r'^Check \d+: (\S+)\n\s+- Status: (\w+)\n\s+- Description: "+(.*?)"+\n(?:\s+- Location: ([^\n]*)\n)?', re.M)
-
-
 def parse_segment(seg):
-    r = {'checks': 0, 'failed_checks': [], 'covers': [], 'status': 'unknown', 'unwind_failed': False,
-         'unreachable': 0, 'undetermined': 0, 'obligations': {}, 'time_s': None}
-    for m in CHECK_RX.finditer(seg):
-        cid, status, desc, loc = m.group(1), m.group(2), m.group(3), m.group(4) or ''
-        if '.cover.' in cid or cid.endswith('.cover'):
-            r['covers'].append((desc, status))
-            continue
-        r['checks'] += 1
-        ob = re.match(r'OB ([^:\s]+)', desc)
-        if ob:
-            st = r['obligations'].setdefault(ob.group(1), {'n': 0, 'failed': 0, 'unreachable': 0})
-            st['n'] += 1
-            if status == 'FAILURE':
-                st['failed'] += 1
-            if status == 'UNREACHABLE':
-                st['unreachable'] += 1
-        if status == 'FAILURE':
+    r = {'checks': 0, 'n_failed': 0, 'failed_checks': [], 'covers': None, 'status': 'unknown', 'unwind_failed': False,
+         'unreachable': 0, 'time_s': None, 'raw_tail': seg[-1500:]}
+    m = re.search(r'\*\* (\d+) of (\d+) failed(?: \((\d+) (?:unreachable|undetermined))?', seg)
+    if m:
+        r['n_failed'] = int(m.group(1))
+        r['checks'] = int(m.group(2))
+        r['unreachable'] = int(m.group(3) or 0)
+    m = re.search(r'\*\* (\d+) of (\d+) cover properties satisfied', seg)
+    if m:
+        r['covers'] = (int(m.group(1)), int(m.group(2)))
+    for m in re.finditer(r'^Failed Checks: (.*)\n\s*File: "([^"]*)", line (\d+), in (\S+)', seg, re.M):
+        desc = m.group(1).strip().strip('"')
+        if 'unwinding assertion' in desc:
+            r['unwind_failed'] = True
+        r['failed_checks'].append({'desc': desc, 'loc': '%s:%s in %s' % (m.group(2), m.group(3), m.group(4))})
+    for m in re.finditer(r'^Failed Checks: (.*)$', seg, re.M):
+        desc = m.group(1).strip().strip('"')
+        if not any(fc['desc'] == desc for fc in r['failed_checks']):
+            r['failed_checks'].append({'desc': desc, 'loc': ''})
             if 'unwinding assertion' in desc:
                 r['unwind_failed'] = True
-            r['failed_checks'].append({'id': cid, 'desc': desc, 'loc': loc.strip()})
-        elif status == 'UNREACHABLE':
-            r['unreachable'] += 1
-        elif status == 'UNDETERMINED':
-            r['undetermined'] += 1
     m = re.search(r'VERIFICATION:- (\w+)', seg)
     if m:
         r['status'] = m.group(1)
     m = re.search(r'Verification Time: ([\d.]+)s', seg)
     if m:
         r['time_s'] = float(m.group(1))
-    if 'CBMC failed' in seg or 'CBMC timed out' in seg or 'timed out' in seg.lower():
-        r['status'] = 'TIMEOUT' if 'timed out' in seg.lower() else r['status']
-    if re.search(r'out of memory|std::bad_alloc|Killed', seg):
+    low = seg.lower()
+    if 'timed out' in low or 'timeout' in low:
+        r['status'] = 'TIMEOUT'
+    elif re.search(r'out of memory|bad_alloc', low):
         r['status'] = 'OOM'
+    elif 'cbmc failed' in low and not r['failed_checks']:
+        r['status'] = 'ERROR'
     return r
 
 
@@ -219,4 +235,4 @@ if __name__ == '__main__':
     if len(sys.argv) > 3:
         r = run_kani(work, sys.argv[2], sys.argv[3:], jobs=8, harness_timeout=900, log='/tmp/kxdev.log')
         print(r['rc'], r['wall_s'])
-        print(r['out'][-3000:])
+        print(json.dumps(parse_output(r['out']), indent=1))
